@@ -40,6 +40,16 @@ def main():
         common.init_jax()
         if built:
             mod.run(ctx)
+            changed = ctx.changed_anchor_files() if ctx.quick and not ctx.violations else []
+            if changed:
+                # the anchored source differs from the fingerprinted tree: second pass with a fresh seed (more cases, the other
+                # half of every rotating grid).  Never an alarm by itself.
+                import numpy as np
+
+                ctx.notes.append(f"anchored source changed ({', '.join(changed)}): quick tier ran a second pass with seed {a.seed + 7919}")
+                ctx.seed = a.seed + 7919
+                ctx.rng = np.random.default_rng(np.random.PCG64(ctx.seed))
+                mod.run(ctx)
         level = getattr(mod, "LEVEL", "proof")
         rc = ctx.finish(level=level, explanation=getattr(mod, "EXPLANATION", None))
     except Exception:
